@@ -108,8 +108,19 @@ def expr_positions(e):
 NO_EFFECT_AS_STATEMENT = {"sizeof-type", "alignof", "generic", "addr", "deref", "index", "member", "arrow", "complit"}
 
 
+# names of functions that do not exist: short ones, and ones that are a prefix / substring / extension of a name the
+# compiler does know (a lookup that is not an exact match would swallow them)
+UNKNOWN_NAMES = ["f", "a", "t", "l", "fa", "fat", "fata", "atal", "fatal2", "xfatal", "fatal_", "clz3", "clz320", "xclz32", "mem_loa", "mem_load_", "mem_store_u", "JUM", "JUMPS", "get_np", "get_npcx", "set_usr_fiel", "trapx", "tra",
+                 "sizeo", "MEM_STORE", "MEM_STORE00", "WRITE_PRE", "STORE_SLOT_CANCELLE", "extract6", "extract640", "fcirc_ad", "conv_roun", "REGFIEL", "bswap3", "deposit3"]
+
+
 def space():
     out = []
+    for n in UNKNOWN_NAMES:
+        for pos, text in [("first", "{ %s(RtV); %s %s }" % (n, PRE, POST)), ("middle", "{ %s %s(RtV); %s }" % (PRE, n, POST)), ("if-arm", "{ %s if (RtV) { %s(RsV); } %s }" % (PRE, n, POST)),
+                          ("for-body", "{ for (i = 0; i < 2; i++) { %s(RsV); } }" % n), ("two-args", "{ %s %s(RsV, RtV); %s }" % (PRE, n, POST)),
+                          ("rhs", "{ %s RdV = %s(RtV); %s }" % (PRE, n, POST)), ("call-arg", "{ RdV = clz32(%s(RsV)); }" % n)]:
+            out.append((("stmt" if pos in ("first", "middle", "if-arm", "for-body", "two-args") else "expr", "unknown-name:" + n, pos), text))
     for k, s in STMTS.items():
         for pos, text in stmt_positions(s):
             out.append((("stmt", k, pos), text))
